@@ -169,6 +169,8 @@ def op_gen_noise(job):
             # some values of a feature occur under one class only
             X = X + 100 * np.arange(X.shape[1], dtype=X.dtype)[None, :]
             y = (X[:, 0] != X[:, 0].min()).astype(int) if it.get('classes', 2) == 2 else (X[:, 0] % it['classes']).astype(int)
+        if len(np.unique(y)) < 2:
+            y = (np.arange(it['ns']) % max(2, it.get('classes', 2))).astype(int)      # categorical noise needs a second class to draw from
         if it.get('labels') is not None:
             y = np.array([it['labels'][i % len(it['labels'])] for i in range(it['ns'])])
         Xin = X.astype(float) if it.get('float') else X          # the very array handed to the generator
